@@ -883,7 +883,7 @@ def generate(ctx):
 def run(ctx, status):
     driver_ok = lean_phase(ctx, status, ["OrixProofs.Properties.C19", "OrixProofs.Lemmas.SamplingBasic",
                                          "OrixProofs.Lemmas.SamplingUV", "OrixProofs.Lemmas.SamplingCube",
-                                         "OrixProofs.Lemmas.SO3Cover"], kernels=["so3_quat_point"])
+                                         "OrixProofs.Lemmas.SO3Cover"], kernels=["so3_quat_point", "from_polar_xyz"])
     if ctx.replay:
         site, case, body = sites.load_replay(ctx.replay)
         if site in SITES:
